@@ -185,7 +185,16 @@ class _NonrecursivePickler(dill.Pickler):
                         self.lazywrites.extend(lws)
                         break
                 elif isinstance(lw, _LazyMemo):
-                    self.realmemoize(lw.obj)
+                    if id(lw.obj) in self.memo:
+                        # the object has been saved in full since (it can be
+                        # reached from its own class, saved recursively): do
+                        # what pickle does for a recursive object - drop the
+                        # copy just built and fetch the memoised one
+                        self.realwrite(
+                            pickle.POP + self.get(self.memo[id(lw.obj)][0])
+                        )
+                    else:
+                        self.realmemoize(lw.obj)
                 else:
                     self.realwrite(*lw)
         self.realwrite(pickle.STOP)
